@@ -433,6 +433,7 @@ func (in *Interp) mapFind(m *Map, k Value) *mapEntry {
 	if m == nil {
 		return nil
 	}
+	in.onMapRead(m)
 	if h, ok := hashKey(k); ok {
 		// concrete key: fast path for concrete entries, symbolic scan for others
 		if i, ok := m.idx[h]; ok {
@@ -466,6 +467,7 @@ func (in *Interp) mapSet(m *Map, k, v Value) {
 	if m == nil {
 		panic(targetPanic{v: mkStrIface("assignment to entry in nil map"), kind: "nil-map"})
 	}
+	in.onMapWrite(m)
 	if e := in.mapFind(m, k); e != nil {
 		e.v = v
 		return
@@ -482,6 +484,7 @@ func (in *Interp) mapDelete(m *Map, k Value) {
 	if m == nil {
 		return
 	}
+	in.onMapWrite(m)
 	if e := in.mapFind(m, k); e != nil {
 		e.deleted = true
 		if h, ok := hashKey(e.k); ok {
